@@ -279,9 +279,15 @@ class RecTap(rig.HciTap):
         else:
             super()._to_controller(packet)
 
+    react = None  # callable(when, packet): lets a scenario start caller tasks right before / after a delivery
+
     def _to_host(self, packet):
         self.rec.dlv(packet)
+        if self.react is not None:
+            self.react("pre", packet)
         super()._to_host(packet)
+        if self.react is not None:
+            self.react("post", packet)
 
 
 FUNNELS = ("send_command", "send_sync_command_raw", "send_async_command")
@@ -550,6 +556,25 @@ def run_cat(desc, factories=None):
         for cmds in desc["tasks"]:
             objs = [hci.HCI_Command.from_bytes(bytes.fromhex(h)) for h in cmds]
             asyncio.get_running_loop().create_task(caller(s, objs, rng))
+        # reactive callers: a task whose first step is a command is created in the very loop iteration in which the
+        # n-th reply is handed to the host, just before ("pre": it runs between the delivery and the wake-up of the
+        # task that sent the answered command) or just after it - what an event listener that issues a command does
+        react = [dict(r) for r in desc.get("react", [])]
+        if react:
+            seen = [0]
+            loop = asyncio.get_running_loop()
+
+            def hook(when, packet):
+                if not s.rec.on or len(packet) < 2 or packet[0] != 0x04 or packet[1] not in (0x0E, 0x0F):
+                    return
+                if when == "pre":
+                    seen[0] += 1
+                for r in react:
+                    if r["at"] == seen[0] and r["when"] == when and not r.get("done"):
+                        r["done"] = True
+                        loop.create_task(caller(s, [hci.HCI_Command.from_bytes(bytes.fromhex(r["cmd"]))], rng, gap=0))
+
+            s.tap.react = hook
         return [s]
 
     return run_world(build, virtual=60.0)
@@ -907,9 +932,16 @@ async def sc_classic_session(w):
         ha, hb = await _classic_connect(w, a, b)
         await cmd(a, hci.HCI_Remote_Name_Request_Command(bd_addr=hci.Address(b.address, hci.Address.PUBLIC_DEVICE_ADDRESS), page_scan_repetition_mode=2, reserved=0, clock_offset=0))
         await cmd(a, hci.HCI_Read_Remote_Supported_Features_Command(connection_handle=ha))
-        await cmd(b, hci.HCI_Read_Remote_Extended_Features_Command(connection_handle=hb, page_number=1))
+        # page numbers inside and beyond the peer's last features page: every accepted request must be concluded
+        page = [1, 0, 3, 255][w.desc.get("variant", 0) % 4]
+        await cmd(b, hci.HCI_Read_Remote_Extended_Features_Command(connection_handle=hb, page_number=page))
+        if w.desc.get("variant", 0) % 4 >= 2:
+            await cmd(a, hci.HCI_Read_Remote_Extended_Features_Command(connection_handle=ha, page_number=2))
         await asyncio.sleep(1.0)
-        await cmd(a, hci.HCI_Disconnect_Command(connection_handle=ha, reason=0x13))
+        if w.desc.get("variant", 0) % 4 != 3:
+            # (variant 3 leaves the link up: a Disconnection Complete concludes whatever was pending on the handle,
+            # which would hide a procedure that is never concluded on its own)
+            await cmd(a, hci.HCI_Disconnect_Command(connection_handle=ha, reason=0x13))
 
     w.script(script())
 
@@ -996,7 +1028,7 @@ async def sc_cis(w):
 
 SCENARIOS = {
     "le_session": (sc_le_session, 2), "disconnect_unknown": (sc_disconnect_unknown, 2), "le_create_absent": (sc_le_create_absent, 3),
-    "le_cancel_misc": (sc_le_cancel_misc, 1), "classic_absent": (sc_classic_absent, 2), "classic_session": (sc_classic_session, 1),
+    "le_cancel_misc": (sc_le_cancel_misc, 1), "classic_absent": (sc_classic_absent, 2), "classic_session": (sc_classic_session, 4),
     "unknown_handles": (sc_unknown_handles, 1), "vanish": (sc_vanish, 6), "cis": (sc_cis, 2),
 }
 
@@ -1120,6 +1152,13 @@ def plan(ctx):
         k = 1 + j % 4
         tasks = [[rng.choice(cat)[1].hex() for _ in range(rng.randint(1, 4))] for _ in range(k)]
         descs.append({"fam": "cat", "name": f"mixed{k}", "tasks": tasks, "seed": rng.randrange(1 << 30),
+                      "delay": rng.choice([0.0, 0.02, 0.3]), "cap": j})
+    # callers that start exactly when a reply is delivered (1..3 per run, before or after the n-th reply)
+    for j in range(60 if quick else 600):
+        k = 1 + j % 2
+        tasks = [[rng.choice(cat)[1].hex() for _ in range(rng.randint(2, 4))] for _ in range(k)]
+        react = [{"cmd": rng.choice(cat)[1].hex(), "at": rng.randint(1, 5), "when": rng.choice(["pre", "pre", "post"])} for _ in range(1 + j % 3)]
+        descs.append({"fam": "cat", "name": f"react{k}", "tasks": tasks, "react": react, "seed": rng.randrange(1 << 30),
                       "delay": rng.choice([0.0, 0.02, 0.3]), "cap": j})
     for name, (_, nv) in SCENARIOS.items():
         for v in range(nv):
